@@ -4,7 +4,7 @@ TABLES = ['BB.Props.Tables.instrTable_matches', 'BB.Props.Tables.registers_str_m
           'BB.Props.Tables.registers_int_match']
 
 THEOREMS = {
-    'C01': TABLES + [],
+    'C01': TABLES + ['BB.Props.C01.enc32_sound', 'BB.Props.C01.encode32_sound', 'BB.Props.C01.enc32_inj'],
     'C02': TABLES + [],
     'C06': TABLES + [],
     'C07': [],
